@@ -6,8 +6,11 @@
 
   * `C14_balanced_contiguous`: `_consume_balanced_tokens(*init)` returns `init` followed by
     exactly the tokens the stream yielded while it ran — same text and type, same order, none
-    dropped, duplicated or taken from elsewhere — and leaves the stream right after the last
-    of them; no other component of the parser state changes;
+    dropped, duplicated or taken from elsewhere, except that a `]]` token closing two `[`
+    (`a[b[0]]`, fused by the lexer) appears as the two `]` it stands for (`Unfused`;
+    `C14_unfused_chars`: no character changes, `C14_unfused_none`: without `]]` tokens nothing
+    changes) — and leaves the stream right after the last of them; no other component of the
+    parser state changes;
   * `C14_value_until_contiguous`: the same for `_consume_value_until(rtoks, *terminators)`,
     whose stream ends at a look-ahead (the terminator was peeked and pushed back);
   * `C14_create_value`: `_create_value` keeps every token's text and type, in order;
@@ -43,18 +46,24 @@ namespace Cxx
 
 theorem C14_balanced_contiguous (env : Env) (F : Nat) (init : List CTok) (w w' : World) (res : List CTok)
     (h : interp env (P.consumeBalancedTokens F init) w = (w', .ok res)) :
-    ∃ (ts : List Tok), Yields env.cfg w.buf ts w'.buf ∧ SameParse w w' ∧
-      res.map CTok.tv = init.map CTok.tv ++ ts.map Tok.tv := by
-  obtain ⟨ts, cts, hy, hsp, htv, hr⟩ := consumeBalanced_contiguous env F init w w' res h
-  exact ⟨ts, hy, hsp, by rw [hr, List.map_append, htv]⟩
+    ∃ (ts : List Tok) (cts us : List CTok), Yields env.cfg w.buf ts w'.buf ∧ SameParse w w' ∧
+      cts.map CTok.tv = ts.map Tok.tv ∧ Unfused cts us ∧ res = init ++ us :=
+  consumeBalanced_contiguous env F init w w' res h
 
 theorem C14_value_until_contiguous (env : Env) (types : List String) (F : Nat) (rtoks : List CTok)
     (w w' : World) (res : List CTok)
     (h : interp env (P.consumeValueUntil F rtoks types) w = (w', .ok res)) :
-    ∃ (ts : List Tok) (bmid : Buf), Yields env.cfg w.buf ts bmid ∧ Peeked env.cfg bmid w'.buf ∧ SameParse w w' ∧
-      res.map CTok.tv = rtoks.map CTok.tv ++ ts.map Tok.tv := by
-  obtain ⟨ts, cts, bmid, hy, hpk, hsp, htv, hr⟩ := consumeValueUntil_contiguous env types F rtoks w w' res h
-  exact ⟨ts, bmid, hy, hpk, hsp, by rw [hr, List.map_append, htv]⟩
+    ∃ (ts : List Tok) (cts us : List CTok) (bmid : Buf), Yields env.cfg w.buf ts bmid ∧ Peeked env.cfg bmid w'.buf ∧
+      SameParse w w' ∧ cts.map CTok.tv = ts.map Tok.tv ∧ Unfused cts us ∧ res = rtoks ++ us :=
+  consumeValueUntil_contiguous env types F rtoks w w' res h
+
+/-- `Unfused cts us`: `us` is `cts` with some `]]` tokens written as the two `]` they stand for
+    (`a[b[0]]`); no character changes, and without `]]` tokens nothing changes at all -/
+theorem C14_unfused_chars {cts us : List CTok} (h : Unfused cts us) (hv : ∀ t ∈ cts, t.type = "DBL_RBRACKET" → t.value = "]]") :
+    String.join (us.map (·.value)) = String.join (cts.map (·.value)) := h.chars hv
+
+theorem C14_unfused_none {cts us : List CTok} (h : Unfused cts us) (hn : ∀ t ∈ cts, t.type ≠ "DBL_RBRACKET") : us = cts :=
+  h.none hn
 
 theorem C14_create_value (toks : List CTok) :
     (P.createValue toks).tokens.map (fun t => (t.type, t.value)) = toks.map CTok.tv := by
